@@ -3,6 +3,7 @@ import StunVerif.Props.C02Causes
 import StunVerif.Props.SrcFnIter
 import StunVerif.Props.SrcFnParse
 import StunVerif.Props.SrcFnDecode
+import StunVerif.Props.SrcFnGlue
 #print axioms StunVerif.C02.parse_iff
 #print axioms StunVerif.C02.split_unique
 #print axioms StunVerif.C02.parse_faithful
@@ -41,3 +42,15 @@ import StunVerif.Props.SrcFnDecode
 #print axioms StunVerif.SrcFnDecode.cookie_iff
 #print axioms StunVerif.SrcFnDecode.len_field
 #print axioms StunVerif.SrcFnDecode.src_headerFromBytes
+#print axioms StunVerif.SrcFnGlue.src_reqNew
+#print axioms StunVerif.SrcFnGlue.src_mtypeClass
+#print axioms StunVerif.SrcFnGlue.accepted
+#print axioms StunVerif.SrcFnGlue.src_msgGetType
+#print axioms StunVerif.SrcFnGlue.src_msgClass
+#print axioms StunVerif.SrcFnGlue.src_msgMethod
+#print axioms StunVerif.SrcFnGlue.src_msgHasClass
+#print axioms StunVerif.SrcFnGlue.src_msgHasMethod
+#print axioms StunVerif.SrcFnGlue.src_msgTransactionId
+#print axioms StunVerif.SrcFnGlue.src_msgRawAttribute
+#print axioms StunVerif.SrcFnGlue.src_msgHasAttribute
+#print axioms StunVerif.SrcFnGlue.src_inMsg
